@@ -83,5 +83,12 @@ func runC29(x *simkit.Exec) {
 	}
 	if x.Bool("outageRun", 1, 2) {
 		sc.execute(x, "outages", lcOpts{outages: true, checkServing: true})
+		if x.Failed() {
+			return
+		}
+	}
+	// a cold restart once everything is old, with one meta.json arriving incomplete
+	if x.Bool("coldRestartRun", 1, 2) {
+		sc.execute(x, "coldrestart", lcOpts{coldRestartMetaFault: 1 + x.Draw("coldRestartMeta", 4), checkServing: true})
 	}
 }
